@@ -186,11 +186,11 @@ def abso(x):
 POW2 = z3.Function("POW2", z3.IntSort(), z3.IntSort())          # 2**n for n >= 0, used through  POW2(0) = 1, POW2(n+1) = 2*POW2(n)
 
 
-def pow2_spec(n):
+def two_pow(n):
     return 2 ** n if isinstance(n, int) else POW2(n)
 
 
-def pow2_axioms(ns):
+def two_pow_axioms(ns):
     out = [POW2(z3.IntVal(0)) == 1]
     for n in ns:
         n = z3.IntVal(n) if isinstance(n, int) else n
@@ -207,8 +207,8 @@ def lit_even_axioms(x, m):
     LIT(x, 2m+1) == LIT(x*sqrt2, 2m) == (x*sqrt2) * 2^m"""
     x = tuple(z3.IntVal(c) if isinstance(c, int) else c for c in x)
     xs = mul_sqrt2(x)
-    return [z3.Implies(m >= 0, z3.And(*[p == q for p, q in zip(lit_spec(x, 2 * m), scale_o(x, pow2_spec(m)))])),
-            z3.Implies(m >= 0, z3.And(*[p == q for p, q in zip(lit_spec(xs, 2 * m), scale_o(xs, pow2_spec(m)))]))] + lit_axioms(x, [2 * m])
+    return [z3.Implies(m >= 0, z3.And(*[p == q for p, q in zip(lit_spec(x, 2 * m), scale_o(x, two_pow(m)))])),
+            z3.Implies(m >= 0, z3.And(*[p == q for p, q in zip(lit_spec(xs, 2 * m), scale_o(xs, two_pow(m)))]))] + lit_axioms(x, [2 * m])
 
 
 def is_zero_o(x):
@@ -302,7 +302,7 @@ def dyadic_contracts(plan, tier):
             raise Unsupp("math.pow(2, negative)")
         if it.ctx.branch(et >= 1024):
             raise RaiseExc("OverflowError")
-        for ax in pow2_axioms([et]):
+        for ax in two_pow_axioms([et]):
             it.ctx.assume(ax)
         return FloatV(z3.ToReal(POW2(et)), POW2(et))
 
@@ -404,7 +404,7 @@ def dyadic_contracts(plan, tier):
             m = z3.If(g >= 0, g / 2, 0)
             for q in entries(small):
                 out += [z3.Implies(g >= 0, ax) for ax in lit_even_axioms(q, m)] + [z3.Implies(g >= 0, ax) for ax in lit_axioms(q, [2 * m])]
-            out += pow2_axioms([m])
+            out += two_pow_axioms([m])
         return out
 
     def add_overflows(o):
@@ -457,11 +457,11 @@ def dyadic_contracts(plan, tier):
     def EQ(p_, q_):
         return z3.And(*[u == v for u, v in zip(p_, q_)])
     plan.add(lemma("C16", "ZOmega/LIT-even:LIT(x,2m)==x*2^m/base", list(X), EQ(lit_spec(X, z3.IntVal(0)), scale_o(X, POW2(z3.IntVal(0)))),
-                   assumptions=lit_axioms(X, []) + pow2_axioms([])))
+                   assumptions=lit_axioms(X, []) + two_pow_axioms([])))
     X2 = scale_o(X, 2)
     plan.add(lemma("C16", "ZOmega/LIT-even:LIT(x,2m)==x*2^m/step", list(X) + [mm], EQ(lit_spec(X, 2 * (mm + 1)), scale_o(X, POW2(mm + 1))),
                    assumptions=[mm >= 0, EQ(lit_spec(X2, 2 * mm), scale_o(X2, POW2(mm)))] + lit_axioms(X, [2 * mm + 1])
-                   + lit_axioms(mul_sqrt2(X), [2 * mm]) + pow2_axioms([mm])))
+                   + lit_axioms(mul_sqrt2(X), [2 * mm]) + two_pow_axioms([mm])))
     plan.assumed_contracts += ["np.allclose([exact integers], 0) <=> all of them are 0",
                                "math.pow(2, e) for integer 0 <= e <= 1023 is the exact power of two (binary64), OverflowError for e >= 1024"]
 
